@@ -388,7 +388,7 @@ impl Check for WeightsAndClaims {
                     let who = iw.user(3);
                     let fa = iw.flow_assets[(*ai % 2) as usize].clone();
                     let a = amount.u128();
-                    let mut funds = vec![coin(1000, "ufee")];
+                    let mut funds = vec![coin(1000, "urewf")];
                     match &fa {
                         AssetInfo::NativeToken { denom } => funds.push(coin(a, denom)),
                         AssetInfo::Token { .. } => iw.set_allowance(&who, &fa, a),
